@@ -24,7 +24,7 @@ M = [
  ('U6 _union: class of y not merged into _sets', UF, "            self._sets[root_x].update(self._sets[root_y])\n", "", ['Unionfind__union']),
  ('U7 _union: stale _sets entry kept', UF, "            del self._sets[root_y]\n", "", ['Unionfind__union']),
  ('U8 _union: returns root of y', UF, "            del self._sets[root_y]\n        return root_x", "            del self._sets[root_y]\n        return root_y", ['Unionfind__union']),
- ('U9 union: no membership check of y', UF, "        if y not in self._parent:\n            raise KeyError(y, self._parent)\n", "", ['Unionfind_union']),
+ ('U9 union: arguments swapped (leader of y wins)', UF, "        return self._union(x, y)", "        return self._union(y, x)", ['Unionfind_union']),
  ('U10 find: returns x', UF, "            raise KeyError(x)\n        return self._find(x)", "            raise KeyError(x)\n        return x", ['Unionfind_find']),
  ('U11 add: new element not its own parent set', UF, "            self._sets[x] = {x}\n            return x", "            return x", ['Unionfind_add']),
  ('U12 add: existing element returned as is', UF, "        else:\n            return self._find(x)\n\n    def find", "        else:\n            return x\n\n    def find", ['Unionfind_add']),
